@@ -281,7 +281,7 @@ def make_sheet(rnd, premium=False, default_bg=(255, 255, 255), rich=False, n_rul
                 out.append(x)
     root_sel = rnd.choice([":root", "html"])
     root_parts = [f"{name}: {val}" for name, val in var_defs]
-    if rnd.random() < 0.05 and allowed("rootcolor"):
+    if rnd.random() < 0.14 and allowed("rootcolor"):
         rb = tuple(default_bg)
         rt = _text_for(rnd, rb, target, rnd.choice(["fixable", "readable"])) or G.far_end(rb)
         root_parts.insert(rnd.randrange(len(root_parts) + 1), f"color: {_spell(rnd, rt)}")
